@@ -414,6 +414,12 @@ func (env *ExprEnv) callExpr(e *ast.CallExpr) Val {
 		m, k := arg(0), arg(1)
 		f := t.declareFun("$mapget0I", []string{"Int", "Int"}, "Int")
 		return Val{K: KRef, S: sApp(f, m.S, k.S)}
+	case "global": // global("name") / global("pkg/path.name"): a package-level variable of reference / interface / int kind
+		nm, _ := strconv.Unquote(exprString(e.Args[0]))
+		if !strings.Contains(nm, ".") {
+			nm = env.pkg + "." + nm
+		}
+		return Val{K: KIface, S: t.declare("g:"+nm, "Int")}
 	case "extfn": // extfn("pkg/path.Func"): identity of a foreign function as a callee (for ret / ncalls of recorded calls)
 		nm, _ := strconv.Unquote(exprString(e.Args[0]))
 		return Val{K: KFunc, S: t.funcIDByName(nm)}
@@ -596,6 +602,9 @@ func (env *ExprEnv) applyPure(pf *PureFunc, args []ast.Expr) Val {
 	if len(args) != len(pf.Params) {
 		return env.fail("pure function %s expects %d arguments", pf.Name, len(pf.Params))
 	}
+	if pf.Unfold {
+		return env.applyUnfold(pf, args)
+	}
 	t.definePure(pf)
 	var as []string
 	for _, a := range args {
@@ -604,6 +613,46 @@ func (env *ExprEnv) applyPure(pf *PureFunc, args []ast.Expr) Val {
 	tmpl, _ := env.ghostType(pf.Ret)
 	tmpl.S = sApp(smtName("pure:"+pf.Name), as...)
 	return tmpl
+}
+
+// applyUnfold: a recursive specification function kept uninterpreted; every application outside a quantifier adds the
+// instance "f(args) = body[args]" of its definition (a valid fact for any argument terms), nested to depth 2.
+// No quantified definition is emitted, so there is no matching loop; the price is incompleteness beyond two unfoldings.
+func (env *ExprEnv) applyUnfold(pf *PureFunc, args []ast.Expr) Val {
+	t := env.t
+	key := "pure:" + pf.Name
+	var sorts []string
+	var avals []Val
+	for i, a := range args {
+		v := env.eval(a)
+		tmpl, sort := env.ghostType(pf.Params[i][1])
+		tmpl.S = v.S
+		avals = append(avals, tmpl)
+		sorts = append(sorts, sort)
+	}
+	rt, rsort := env.ghostType(pf.Ret)
+	t.declareFun(key, sorts, rsort)
+	var as []string
+	for _, v := range avals {
+		as = append(as, v.S)
+	}
+	app := sApp(smtName(key), as...)
+	rt.S = app
+	if t.quantDepth == 0 && t.unfoldDepth < 2 {
+		ikey := "unfold:" + app
+		if !t.pureDone[ikey] {
+			t.pureDone[ikey] = true
+			t.unfoldDepth++
+			benv := &ExprEnv{t: t, vars: map[string]Val{}, pkg: pf.Pkg, src: pf.Src, st: env.st, old: env.old, callBase: env.callBase}
+			for i, p := range pf.Params {
+				benv.vars[p[0]] = avals[i]
+			}
+			body := benv.evalSrc(pf.Body, pf.Src)
+			t.unfoldDepth--
+			t.asserts = append(t.asserts, sEq(app, body.S))
+		}
+	}
+	return rt
 }
 
 func (t *Task) definePure(pf *PureFunc) {
